@@ -52,6 +52,24 @@ def run(pid, tier, seed):
     for fl in fails:
         rep.violation({"trace_tail": fl["scenario"][max(0, fl["matched"] - 40):fl["matched"] + 2], "topology": fl["scenario"][0],
                        "matched": fl["matched"], "spec": "specs/vnet/TraceVNet.tla"}, describe(fl))
+    # spec growth beyond C01's text (chunk queue, router start/stop life cycle, resolver): validated against
+    # specs/vnetmisc; a rejection there is reported as a note, never as a C01 violation
+    vlib.inject(repo, {"vnetmisc": "vnet"})
+    tp2 = os.path.join(d, "misc.trace")
+    rc, out, _ = vlib.go_test(repo, "./vnet/", "^TestVerifMisc$", synctest=True, timeout=900,
+                              env={"VERIF_TRACE": tp2, "VERIF_SEED": seed, "VERIF_RUNS": 20 if not big else 200})
+    if rc == 0:
+        r2 = vlib.tlc_must_pass(vlib.run_tlc("vnetmisc", "MC_Misc", "MC_Misc.cfg", workers=2), "MC_Misc")
+        rep.add_tlc(r2)
+        misc = vlib.read_ndjson(tp2)
+        m_ok, m_fails, _ = vlib.validate_scenarios("vnetmisc", "TraceMisc", "TraceMisc.cfg", misc, batch=40000)
+        rep.extra["aux_scenarios_validated"] = m_ok
+        rep.extra["aux_model_drift"] = [{"kind": f["scenario"][0].get("kind"), "event": f["first_unmatched"]} for f in m_fails]
+        for f in m_fails:
+            rep.notes.append("NOTE model-drift (%s): %s" % (f["scenario"][0].get("kind"), json.dumps(f["first_unmatched"])))
+            log("NOTE model-drift (not part of C01): %s %s" % (f["scenario"][0].get("kind"), json.dumps(f["first_unmatched"])))
+    else:
+        rep.notes.append("auxiliary harness (queue/life cycle/resolver) did not run: " + out[-300:])
     if not fails:
         s0 = [dict(e) for e in scs[1][1]]
         i = [j for j, e in enumerate(s0) if e["ev"] == "recv"][3]
